@@ -158,6 +158,11 @@ func Shapes() []*Grammar {
 	add("nested-capture", Seq(Cap(Seq(a(), Cap(Opt(b())), Act())), Act(), Opt(c())))
 	add("action-in-failing-alt", Alt(Seq(a(), Act(), b()), Seq(a(), Act(), c()), Seq(Act(), a())))
 	add("capture-in-lookahead", Seq(And(Seq(Cap(a()), Act())), Cap(Dot()), Act()))
+	// a capture over terminals only inside a lookahead (no action, no rule inside the operand):
+	// its token must be gone when the next action reads text
+	add("capture-only-in-and", Seq(Cap(a()), And(Cap(b())), Act(), Opt(b()), Cap(Opt(c())), Act()))
+	add("capture-only-in-not", Seq(Cap(a()), Not(Seq(Cap(Lit("-")), Class(R('0', '9')))), Act(), Opt(Lit("-")), Opt(x())))
+	add("capture-only-in-and-failing", Alt(Seq(Cap(a()), And(Seq(Cap(b()), c())), Act(), b(), c()), Seq(Cap(a()), Act(), Dot())))
 	add("not-with-tokens", Seq(Not(Seq(Ref(1), Lit(":"))), Ref(1), Opt(Lit(":"))), Seq(Cap(Plus(Class(R('a', 'b')))), Act()))
 	add("abandoned-iteration", Seq(Star(Seq(Ref(1), Lit(","))), Ref(1)), Seq(Cap(a()), Act()))
 	add("zero-width-capture", Seq(a(), Cap(Opt(b())), Act(), Cap(Empty2()), Act()))
